@@ -30,7 +30,13 @@ type Rec struct {
 	stopped    bool
 	Ev         *evaluator.Evaluator
 	NoYielder  bool
+	// StopAtEffect raises the stop flag inside the StopAtEffect-th platform effect (0: never): the platform's own
+	// Sleep/Read/Print is where a browser raises it when there is no yielder
+	StopAtEffect int
 }
+
+// StopIgnored is the panic value raised when a run keeps producing effects long after the stop flag was raised inside an effect.
+const StopIgnored = "VERIF-STOP-IGNORED"
 
 // DefaultBudget is the default step bound (in yields) for generated programs.
 const DefaultBudget = 200000
@@ -38,6 +44,14 @@ const DefaultBudget = 200000
 func (r *Rec) eff(s string) {
 	r.Trace = append(r.Trace, s)
 	r.YieldsAt = append(r.YieldsAt, r.Yields)
+	if r.StopAtEffect > 0 {
+		if len(r.Trace) == r.StopAtEffect {
+			r.stopped = true
+			r.Ev.Stopped = true
+		} else if len(r.Trace) > r.StopAtEffect+25 {
+			panic(StopIgnored) // bounded: an ignored stop would otherwise run an endless program forever
+		}
+	}
 }
 
 func f(x float64) string { return strconv.FormatFloat(x, 'g', -1, 64) }
@@ -133,6 +147,7 @@ type Opts struct {
 	NoTestSummary bool
 	Events        []evaluator.Event
 	NoYielder     bool
+	StopAtEffect  int
 }
 
 // Outcome is the observable result of a run.
@@ -261,7 +276,7 @@ func PanicSite(gopanic string) string {
 
 // Run parses and evaluates src on a fresh evaluator with a recording platform.
 func Run(src string, o Opts) (out Outcome) {
-	rec := &Rec{Inputs: o.Inputs, StopAt: o.StopAt, Budget: o.Budget, NoYielder: o.NoYielder}
+	rec := &Rec{Inputs: o.Inputs, StopAt: o.StopAt, Budget: o.Budget, NoYielder: o.NoYielder, StopAtEffect: o.StopAtEffect}
 	seed := o.Seed
 	if seed == 0 {
 		seed = 1
